@@ -35,7 +35,16 @@ STUBS = []
 NONTRIVIAL_RULE = "paths whose link crosses directories or carries an anchor/label and resolves"
 
 S = {}
-DOCS = ["index", "a", "sub", "sub/b", "sub/deep/c"]  # note: document "sub" has a sibling directory "sub/"
+DOCS = ["index", "a", "sub", "sub/b", "sub/a", "sub/deep/c"]  # note: document "sub" has a sibling directory "sub/"; "sub/a" shares its relative name with the root document "a"
+
+
+def anchor_written(doc):
+    """The heading anchor as a link writes it (the slug keeps '_'); the section id docutils assigns differs ('_' -> '-')."""
+    return "sub_heading-" + doc.replace("/", "-")
+
+
+def anchor_id(doc):
+    return "sub-heading-" + doc.replace("/", "-")
 
 
 def setup():
@@ -108,18 +117,18 @@ def project(c):
         dest = posixpath.relpath("files/data.txt", srcdir or ".")
         kind = "file"
     elif spelling == "anchor":
-        dest = rel + ".md#sub-heading-" + dst.replace("/", "-")
-        anchor = "sub-heading-" + dst.replace("/", "-")
+        dest = rel + ".md#" + anchor_written(dst)
+        anchor = anchor_id(dst)
     elif spelling == "anchor-missing":
         dest = rel + ".md#no-such-anchor"
         kind = "missing-anchor"
     elif spelling == "project-anchor":
-        dest = "project:" + rel + ".md#sub-heading-" + dst.replace("/", "-")
-        anchor = "sub-heading-" + dst.replace("/", "-")
+        dest = "project:" + rel + ".md#" + anchor_written(dst)
+        anchor = anchor_id(dst)
     else:  # self-anchor within the same document via path
-        dest = posixpath.basename(src) + ".md#sub-heading-" + src.replace("/", "-")
+        dest = posixpath.basename(src) + ".md#" + anchor_written(src)
         dst = src
-        anchor = "sub-heading-" + src.replace("/", "-")
+        anchor = anchor_id(src)
     auto = spelling.startswith("project") or spelling == "path-file"
     if auto and not explicit:
         md = "<%s>" % dest
@@ -136,7 +145,7 @@ def write_project(d, spec):
         p = os.path.join(d, doc + ".md")
         os.makedirs(os.path.dirname(p), exist_ok=True)
         tag = doc.replace("/", "-")
-        lines = ["(Lbl-%s)=" % tag, "# %s" % spec["titles"][doc], "", "para", "", "## Sub heading %s" % tag, "", "text", ""]
+        lines = ["(Lbl-%s)=" % tag, "# %s" % spec["titles"][doc], "", "para", "", "## Sub_heading %s" % tag, "", "text", ""]
         if doc == spec["src"]:
             lines += ["LINK " + spec["md"], ""]
         if doc == "index":
@@ -201,7 +210,7 @@ def check(refs, warn, spec):
         if kind == "label" and frag != "lbl-" + spec["dst"].replace("/", "-"):
             return ("wrong-anchor", "label link %r -> %r" % (spec["md"], got))
         if not spec["explicit"]:
-            want = title if spec["anchor"] is None else "Sub heading " + spec["dst"].replace("/", "-")
+            want = title if spec["anchor"] is None else "Sub_heading " + spec["dst"].replace("/", "-")
             if r["text"] != want:
                 return ("implicit-text", "link %r shows %r, expected the target title %r" % (spec["md"], r["text"], want))
         if nmiss:
@@ -252,7 +261,7 @@ def make(eng):
 
 
 def families(tier, seed):
-    F = [Family("projects", make, "4 documents at depths 0-2; (source, destination) pairs x 15 link spellings x explicit/empty text (360 projects, one real Sphinx html build each)", nontrivial="crossdir",
+    F = [Family("projects", make, "6 documents at depths 0-2 (a sub-directory document sharing its name with a root document; heading anchors whose slug differs from the section id); (source, destination) pairs x 15 link spellings x explicit/empty text (900 projects, one real Sphinx html build each)", nontrivial="crossdir",
                 max_forks=100000, required=True)]
     return F
 
